@@ -124,7 +124,7 @@ def history_cases(seed, quick):
     for gen in ("py", "c"):
         for grp in ALIASES:
             for a, b in itertools.permutations(grp, 2):
-                yield {"kind": "scheme-name", "gen": gen, "seq": [a, b], "tags": t1}
+                yield {"kind": "scheme-name", "gen": gen, "seq": [a, b], "tags": t1, "sample": (a, b, gen) == ("forward_euler", "euler", "py")}
         # controls: name restored / other function touched
         yield {"kind": "scheme-name", "gen": gen, "seq": ["forward_euler", "euler", "forward_euler"], "tags": t1}
         yield {"kind": "scheme-name", "gen": gen, "seq": ["euler", "rush_larsen", "generalized_rush_larsen"], "tags": t1}
@@ -132,7 +132,7 @@ def history_cases(seed, quick):
     rng.shuffle(perms)
     n = 6 if quick else 40
     for i in range(n):
-        yield {"kind": "get_code-order", "gen": ["py", "c"][i % 2], "order": list(perms[i]), "before": list(perms[-1 - i]), "tags": t2}
+        yield {"kind": "get_code-order", "gen": ["py", "c"][i % 2], "order": list(perms[i]), "before": list(perms[-1 - i]), "tags": t2, "sample": i == 0}
     for i in range(n):
         k = rng.randint(2, 4)
         yield {"kind": "get_code-order", "gen": ["py", "c"][i % 2], "order": rng.sample(MEMBERS, k), "before": rng.sample(MEMBERS, k), "tags": t2}
@@ -327,7 +327,7 @@ def check_scheme_name(case, res):
     text = case.get("ode") or LORENTZ
     gen, seq = case["gen"], list(case["seq"])
     inp = {"kind": "scheme-name", "gen": gen, "seq": seq, "ode": text}
-    res["sample"] = inp
+    res["sample"] = inp if case.get("sample") else None
     res["evals"] += 1
     res["nontrivial"].append(cm.sha(["scheme-name", gen, seq, text]))
     with cm.quiet():
@@ -351,7 +351,7 @@ def check_get_code_order(case, res):
     text = case.get("ode") or LORENTZ
     gen, order, before = case["gen"], list(case["order"]), list(case.get("before") or [])
     inp = {"kind": "get_code-order", "gen": gen, "order": order, "before": before, "ode": text}
-    res["sample"] = inp
+    res["sample"] = inp if case.get("sample") else None
     res["evals"] += 1
     res["nontrivial"].append(cm.sha(["get_code-order", gen, order, before, text]))
     ode = cm.load(text)
